@@ -1160,3 +1160,127 @@ def oracle_c18(R):
                       f'after shutdown returned'))
     v += oracle_quiescence(R)
     return v
+
+
+# ----------------------------------------------------------------- C14
+def _ceil_div(a, b):
+    return -(-a // b)
+
+
+def oracle_c14(R):
+    import re
+    v = []
+    cfg = cfg_of(R)
+    thr = cfg['multipart_threshold']
+    chunk = cfg['multipart_chunksize']
+    adj = R.case.get('adj') or [5 * 1024 ** 2, 5 * 1024 ** 3, 10000]
+    lo, hi, mp = adj
+    for r in R.all_recs():
+        if r['type'] == 'delete' or not (r['outcome'] or {}).get('ok'):
+            continue
+        i = r['i']
+        kind = kind_of(r)
+        size = len(r['expect'])
+        mode = mode_of(R, r)
+        want_multi = size >= thr
+        if (mode in ('multipart', 'ranged')) != want_multi:
+            v.append((f'c14:{kind}:mode',
+                      f'transfer {i}: size {size}, threshold {thr}: mode '
+                      f'{mode}'))
+            continue
+        calls = calls_of(R, r)
+        if r['type'] == 'download' and mode == 'ranged':
+            rngs = []
+            for c in calls:
+                if c['op'] == 'get_object' and c.get('attempt') == 0:
+                    m = re.match(r'^bytes=(\d+)-(\d*)$',
+                                 c['kwargs'].get('Range', ''))
+                    if not m:
+                        v.append((f'c14:{kind}:range-syntax',
+                                  f'{c["kwargs"].get("Range")!r}'))
+                        continue
+                    rngs.append((int(m.group(1)),
+                                 int(m.group(2)) if m.group(2) else None))
+            rngs.sort()
+            nxt = 0
+            bad = None
+            for k, (a, b) in enumerate(rngs):
+                if a != nxt:
+                    bad = f'range {k} starts at {a}, expected {nxt}'
+                    break
+                if b is None:
+                    if k != len(rngs) - 1:
+                        bad = f'open-ended range {k} is not the last'
+                        break
+                    nxt = size
+                else:
+                    nxt = b + 1
+            if bad is None and nxt != size:
+                bad = f'ranges end at {nxt}, object size {size}'
+            if bad is None and len(rngs) != _ceil_div(size, chunk):
+                bad = (f'{len(rngs)} ranges, expected '
+                       f'{_ceil_div(size, chunk)}')
+            if bad:
+                v.append((f'c14:{kind}:ranges',
+                          f'download {i} size {size} chunk {chunk}: {bad} '
+                          f'({rngs})'))
+        if r['type'] in ('upload', 'copy') and mode == 'multipart':
+            ups = uploads_of(R, r)
+            if len(ups) != 1:
+                continue
+            u = ups[0]
+            parts = getattr(u, 'final_parts', [])
+            nums = [p['PartNumber'] for p in parts]
+            if nums != list(range(1, len(nums) + 1)):
+                v.append((f'c14:{kind}:part-numbers', f'{nums}'))
+                continue
+            lens = [len(u.parts[n]['data']) for n in nums]
+            if sum(lens) != size or any(x <= 0 for x in lens):
+                v.append((f'c14:{kind}:part-sizes-sum',
+                          f'part sizes {lens} for size {size}'))
+                continue
+            eff = lens[0]
+            if any(x != eff for x in lens[:-1]) or lens[-1] > eff:
+                v.append((f'c14:{kind}:part-sizes-uneven',
+                          f'part sizes {lens}'))
+            if len(lens) > 1 or size >= lo:
+                if not (lo <= eff <= hi) and len(lens) > 1:
+                    v.append((f'c14:{kind}:part-size-limits',
+                              f'effective part size {eff} outside '
+                              f'[{lo},{hi}] (size {size}, chunk {chunk})'))
+            size_known = not (r['type'] == 'upload'
+                              and r['spec'].get('src') == 'nonseek'
+                              and not any(sp.get('size') for sp in
+                                          r['spec'].get('subs') or []))
+            # a non-seekable stream of undeclared size cannot be planned for
+            # max_parts (the size is not known to anybody); see DESIGN 3.15
+            if size_known and size <= hi * mp and len(lens) > mp:
+                v.append((f'c14:{kind}:too-many-parts',
+                          f'{len(lens)} parts > {mp}'))
+            okc = lo <= chunk <= hi and (
+                _ceil_div(size, chunk) <= mp or not size_known)
+            if okc and len(lens) > 1 and eff != chunk:
+                v.append((f'c14:{kind}:chunk-changed-needlessly',
+                          f'configured chunk {chunk} satisfies the limits '
+                          f'but parts are {eff} bytes'))
+            if r['type'] == 'copy':
+                nxt = 0
+                for n in nums:
+                    c = next((c for c in u.log if c['op'] ==
+                              'upload_part_copy' and c['applied'] and
+                              c['kwargs'].get('PartNumber') == n), None)
+                    if c is None or 'range' not in c:
+                        continue
+                    a, b = c['range']
+                    if a != nxt:
+                        v.append((f'c14:{kind}:copy-ranges',
+                                  f'part {n} CopySourceRange {a}-{b}, '
+                                  f'expected start {nxt}'))
+                        break
+                    nxt = b + 1
+                else:
+                    if nxt != size:
+                        v.append((f'c14:{kind}:copy-ranges',
+                                  f'CopySourceRanges end at {nxt}, size '
+                                  f'{size}'))
+    return v
